@@ -42,7 +42,7 @@ def snap(o):
 
 
 def generate(rnd, tier, index=0):
-    cfg, spare = gen.gen_cfg(rnd, with_np=rnd.random() < 0.75)
+    cfg, spare = gen.gen_cfg(rnd, with_np=rnd.random() < 0.75, scale=True)
     default_np = False
     if cfg["np"] and cfg["np"][0] == "TreeBandit" and rnd.random() < 0.5:
         cfg["np"] = ["TreeBandit", {}]        # NeighborhoodPolicy.TreeBandit(): the class-level default dict
